@@ -43,11 +43,46 @@ def template(msg):
     return msg[:80]
 
 
+DIALECTS = ['lenient_function_statement']
+
+
+def attribute(s):
+    """
+    Mechanism attribution: does the implementation's outcome on this text
+    coincide with the reference parser run under exactly one known-deviation
+    dialect switch?  Returns the switch name or None.  (The verdict itself
+    always comes from the standard dialect.)
+    """
+    if getattr(s, 'text', None) is None:
+        return None
+    for d in DIALECTS:
+        try:
+            r = refjs.parse(s.text, **{d: True})
+            cr = refjs.canon(r.tree)
+        except refjs.RefSyntaxError:
+            cr = None
+        except RecursionError:
+            continue
+        if (s.tree is None and cr is None) or (s.tree is not None and cr is not None and cr == s.ci):
+            return d
+    return None
+
+
 def judge(s):
     """
     The oracle: compares the two outcomes of a ``work.Side``.  Returns None
     when they agree, else (mechanism key, detail).
     """
+    v = _judge(s)
+    if v is not None:
+        d = attribute(s)
+        if d:
+            return ('C03:deviation:' + d, v[1] + ' [the outcome equals that of the reference parser with the '
+                    'known deviation %r switched on]' % d)
+    return v
+
+
+def _judge(s):
     if s.ref is not None and s.tree is not None:
         if s.ci == s.cr:
             return None
